@@ -48,7 +48,7 @@ def pair_specs(w, tier):
 
 def triple_specs(w, tier):
     for f in [(0, 1, 'exact', 'same'), (4, 4, 'exact', '+1000'), ((1 << 14) - 2, 2, 'exact', '+1002')]:
-        for s2 in ('adjacent', 'far', 'overlap_last'):
+        for s2 in ('adjacent', 'far', 'overlap_last', 'same'):
             for r2 in ('exact', 'prev'):
                 for s3 in ('adjacent', 'same', 'before', 'far'):
                     for d3 in (3, 0):
@@ -154,31 +154,44 @@ def natural_image(calls, w):
 
 
 def run_case(calls, w, version, path, preset=None):
-    """drive the real Writer then Reader. returns (outcome, detail, reader_or_None)."""
+    """drive the real Writer then Reader. a call rejected with FlipJumpWriteFjmException is SKIPPED and the
+    sequence goes on (a rejected call must leave the writer unchanged).
+    returns (outcome, detail, reader_or_None, accepted_calls)."""
     from flipjump.fjm.fjm_consts import FJMVersion
     from flipjump.fjm.fjm_writer import Writer
     from flipjump.fjm.fjm_reader import Reader
     from flipjump.utils.exceptions import FlipJumpWriteFjmException, FlipJumpReadFjmException
     kw = {} if preset is None else {'lzma_preset': preset}
+    accepted = []
+    detail = ''
     try:
         wr = Writer(path, w, FJMVersion(version), **kw)
         for c in calls:
-            if c[0] == 'data':
-                wr.add_data(list(c[1]))
-            else:
-                wr.add_segment(c[1], c[2], c[3], c[4])
+            try:
+                if c[0] == 'data':
+                    wr.add_data(list(c[1]))
+                else:
+                    wr.add_segment(c[1], c[2], c[3], c[4])
+                accepted.append(c)
+            except FlipJumpWriteFjmException as e:
+                detail = detail or str(e)[:80]
+                if c[0] == 'data':
+                    accepted.append(('data', []))  # a refused data block adds nothing (indices of later blocks are the writer's)
+                    return 'rejected', detail, None, accepted
+        if not any(c[0] == 'seg' for c in accepted):
+            return 'rejected', detail, None, accepted
         wr.write_to_file()
     except FlipJumpWriteFjmException as e:
-        return 'rejected', str(e)[:80], None
+        return 'rejected', str(e)[:80], None, accepted
     except Exception as e:  # noqa
-        return 'raw-exception', f'{type(e).__name__}: {str(e)[:80]}', None
+        return 'raw-exception', f'{type(e).__name__}: {str(e)[:80]}', None, accepted
     try:
         r = Reader(path)
     except FlipJumpReadFjmException as e:
-        return 'reader-refused', str(e)[:100], None
+        return 'reader-refused', str(e)[:100], None, accepted
     except Exception as e:  # noqa
-        return 'reader-raw-exception', f'{type(e).__name__}: {str(e)[:80]}', None
-    return 'loaded', '', r
+        return 'reader-raw-exception', f'{type(e).__name__}: {str(e)[:80]}', None, accepted
+    return 'loaded', '', r, accepted
 
 
 def compare_loaded(r, calls, w):
@@ -234,9 +247,11 @@ def check_sequence(specs, w, path, sieve, stats, presets=(None,)):
     calls = materialize(specs, w)
     images = {}
     for version in (0, 1, 2, 3):
-        why = classify(calls, w, version)
         for preset in (presets if version == 3 else (None,)):
-            outcome, detail, r = run_case(calls, w, version, path, preset)
+            outcome, detail, r, accepted = run_case(calls, w, version, path, preset)
+            why = classify(accepted if outcome not in ('rejected', 'raw-exception') else calls, w, version)
+            if outcome == 'loaded' and len(accepted) < len(calls):
+                stats['continued_after_a_rejected_call'] = stats.get('continued_after_a_rejected_call', 0) + 1
             stats['runs'] += 1
             stats[outcome] = stats.get(outcome, 0) + 1
             case = {'w': w, 'version': version, 'preset': preset, 'calls': calls, 'spec': [list(map(str, s)) for s in specs]}
@@ -252,16 +267,19 @@ def check_sequence(specs, w, path, sieve, stats, presets=(None,)):
             elif outcome == 'loaded':
                 if why is None:
                     stats['valid_loaded'] += 1
-                problems = compare_loaded(r, calls, w)
+                problems = compare_loaded(r, accepted, w)
                 if problems:
                     bad('loaded image differs' if why is None else 'unrepresentable input accepted and loaded differently',
                         {p[0]: p[1] for p in problems}, {p[0]: p[2] for p in problems})
                 elif why is not None:
                     stats['lenient_accept'] = stats.get('lenient_accept', 0) + 1
-                images[(version, preset)] = R2.normalize(*R2.reader_image(r))
+                images[(version, preset)] = (repr(accepted), R2.normalize(*R2.reader_image(r)))
             elif outcome == 'rejected' and why is None:
                 stats['valid_rejected'] = stats.get('valid_rejected', 0) + 1
-    if len(set(map(repr, images.values()))) > 1:
+    by_accepted = {}
+    for k, (acc, img) in images.items():
+        by_accepted.setdefault(acc, set()).add(repr(img))
+    if any(len(v) > 1 for v in by_accepted.values()):  # versions that accepted the same calls must load the same image
         sieve.add({'kind': 'image depends on the version', 'case': {'w': w, 'calls': calls}, 'expected': 'identical images',
                    'observed': {str(k): repr(v)[:200] for k, v in images.items()}, 'r2_reason': None, 'outcome': 'loaded', 'detail': '',
                    'summary': f'w={w}: versions load different images for the same calls'})
@@ -382,10 +400,10 @@ def replay(args):
         print('replay of cross-version / assembled cases: re-run the check')
         return 1
     calls = [tuple(x) for x in c['calls']]
-    outcome, detail, r = run_case(calls, c['w'], c['version'], scratch() / 'replay.fjm', c.get('preset'))
-    why = classify(calls, c['w'], c['version'])
+    outcome, detail, r, accepted = run_case(calls, c['w'], c['version'], scratch() / 'replay.fjm', c.get('preset'))
+    why = classify(accepted if outcome not in ('rejected', 'raw-exception') else calls, c['w'], c['version'])
     print('calls:', calls, '\nR2:', why or 'representable', '\noutcome:', outcome, detail)
-    problems = compare_loaded(r, calls, c['w']) if r is not None else []
+    problems = compare_loaded(r, accepted, c['w']) if r is not None else []
     print('image problems:', problems)
     if outcome in ('raw-exception', 'reader-raw-exception', 'reader-refused') or problems:
         print(f'VIOLATION property={PROP} replay={args.replay}')
